@@ -1,7 +1,50 @@
 """Bounded stand-in for C13 (never counted as proved): run-time sync contracts on real project pairs, see syncharness."""
-from .common import Budget
+import contextlib
+import io
+import os
+
+from .common import Budget, dir_scratch, script_header
 from .syncharness import run_focus
 
 
+def destination_only_file_check():
+    """'files ... that exist only in the destination are unchanged' also for a file named like a document backup
+    (signac_job_document.json~ / signac_project_document.json~) while the documents are merged: the sync may refuse, but if it
+    returns that file is exactly what it was"""
+    import logging
+    import signac
+    logging.disable(logging.CRITICAL)
+    out = []
+    for level in ("job", "project"):
+        with dir_scratch() as d:
+            os.makedirs(d + "/src")
+            os.makedirs(d + "/dst")
+            src, dst = signac.init_project(d + "/src"), signac.init_project(d + "/dst")
+            js, jd = src.open_job({"a": 1}).init(), dst.open_job({"a": 1}).init()
+            if level == "job":
+                js.doc["m"], jd.doc["k"] = 2, 1
+                fn = jd.fn("signac_job_document.json")
+            else:
+                src.doc["m"], dst.doc["k"] = 2, 1
+                fn = dst.fn("signac_project_document.json")
+            open(fn + "~", "wb").write(b"destination only")
+            try:
+                with contextlib.redirect_stdout(io.StringIO()):
+                    dst.sync(src)
+            except Exception:
+                continue        # refused: nothing is claimed after a raise here (C14 covers the roll-back)
+            now = open(fn + "~", "rb").read() if os.path.isfile(fn + "~") else None
+            if now != b"destination only":
+                out.append((level, f"{level} level: a successful sync changed the destination-only file {os.path.basename(fn)}~: it "
+                                   f"{'was deleted' if now is None else 'now holds ' + repr(now[:40])}"))
+    return out
+
+
 def run(tier="quick", seed=0):
-    return run_focus("C13", tier, seed, Budget(14 if tier == "quick" else 300))
+    r = run_focus("C13", tier, seed, Budget(14 if tier == "quick" else 300))
+    for level, msg in destination_only_file_check():
+        r["failures"].append({"key": "destination-only:backup-named-file:" + level, "description": msg,
+                              "script": script_header() + "sys.path.insert(0, '/verif')\nfrom pybound.c13 import destination_only_file_check\nr = destination_only_file_check()\nassert not r, r\n"})
+    r["evaluations"] += 2
+    r["scope"] += "; a destination-only file named like a document backup next to a document that is merged (job and project level): untouched by a sync that returns"
+    return r
